@@ -26,6 +26,8 @@ const LAZY: &str = "lazy = #{ ! [#('int | \\File) { ='int => Ok }], 0 }";
 const IDLE: &str = "idle = #{ x = !'int, f = !#\\File, 0 }";
 const TWO: &str = "two = #['bin, 'bin, 'int] { =[p1, p2, mode], f = [p1, 577, 420] __file_open__, g = [p2, 577, 420] __file_open__, a = [f, 0, 0x01] __file_write__, b = [g, 0, 0x0203] __file_write__, mode { | =0 => f __file_close__ | =2 => [1, 0] __integer_divide__ | Ok }, [a, b] __integer_add__ }";
 const BOUNCER: &str = "bouncer = #{ !#[\\File, (@\\File)] =[f, to], f to, 7 }";
+const SELFS: &str = "selfs = #['bin, 'int] { =[path, c], f = [path, 577, 420] __file_open__, w = [f, 0, 0x01020304] __file_write__, h = &., f h, g = !#\\File, d = [g, 0, 4] __file_read__, c { | =1 => g __file_close__ | Ok }, d __binary_length__ }";
+const RESH: &str = "resh = #'bin { =path, f = [path, 577, 420] __file_open__, w = [f, 0, 0x0102] __file_write__, f }";
 const PP: &str = "pp = #'bin { =path, b = @bouncer, f = [path, 577, 420] __file_open__, w = [f, 0, 0x0a0b0c] __file_write__, [f, &.] b, g = !#\\File, d = [g, 0, 8] __file_read__, d __binary_length__ }";
 
 impl Property for C14 {
@@ -72,14 +74,14 @@ impl Property for C14 {
         if rng.chance(1, 12) {
             return repl_owner(rng);
         }
-        let defs: Vec<String> = vec![USER.into(), GIVER.into(), KEEPER.into(), KEEPT.into(), CHILD.into(), KEEPFN.into(), LAZY.into(), IDLE.into(), TWO.into(), BOUNCER.into(), PP.into()];
+        let defs: Vec<String> = vec![USER.into(), GIVER.into(), KEEPER.into(), KEEPT.into(), CHILD.into(), KEEPFN.into(), LAZY.into(), IDLE.into(), TWO.into(), BOUNCER.into(), PP.into(), SELFS.into(), RESH.into()];
         let mut h = crate::rng::Fnv::default();
         let mut lines: Vec<String> = Vec::new();
         let mut awaits: Vec<String> = Vec::new();
         let neps = 1 + rng.usize(4);
         let mut kinds = Vec::new();
         for k in 0..neps {
-            let kind = rng.below(22);
+            let kind = rng.below(24);
             h.u64(kind);
             kinds.push(kind);
             let aw = |rng: &mut Rng, awaits: &mut Vec<String>, name: String| {
@@ -88,6 +90,22 @@ impl Property for C14 {
                 }
             };
             match kind {
+                22 => {
+                    // a process sends its handle to itself, takes it out of its mailbox and goes on
+                    // using it: a transfer whose target is the owner
+                    let c = rng.below(2);
+                    h.u64(c);
+                    lines.push(format!("ss{k} = [\"/e{k}\" .0, {c}] @selfs"));
+                    aw(rng, &mut awaits, format!("ss{k}"));
+                }
+                23 => {
+                    // a handle as a process RESULT: no transfer (results are not messages), so the
+                    // resource is closed when its owner terminates and whoever got the stale handle
+                    // from the result is refused
+                    lines.push(format!("rh{k} = \"/e{k}\" .0 @resh"));
+                    lines.push(format!("ru{k} = @{{ g = !rh{k}, d = [g, 0, 2] __file_read__, d __binary_length__ }}"));
+                    aw(rng, &mut awaits, format!("ru{k}"));
+                }
                 20 | 21 => {
                     // loopback TCP: main listens, a client connects, the accepted connection - a resource
                     // created by an operation on another resource, possibly by a completion that arrives
